@@ -2,7 +2,7 @@
 from common import *  # noqa
 import dbtie
 
-PROFILE = {'scenario_also': ['raising_test_update', 'ne_writes'], 'scenario_pref': ['noop_match', 'tiny_float_change', 'big_ints', 'noop_match', 'zones', 'sparse_write', 'handle_unset', 'shared_maps', 'torn_update', 'zones', 'same_count', 'hash_twins'], 'p_write': 0.55, 'writes': {'insert': 2, 'insert_multiple': 1, 'remove': 1, 'update': 6, 'update_all': 2, 'reindex': 0.5, 'reopen': 0.5, 'handle': 1.5}}
+PROFILE = {'scenario_also': ['torn_gap', 'raising_test_update', 'ne_writes'], 'scenario_pref': ['noop_match', 'tiny_float_change', 'big_ints', 'noop_match', 'zones', 'sparse_write', 'handle_unset', 'shared_maps', 'torn_update', 'zones', 'same_count', 'hash_twins'], 'p_write': 0.55, 'writes': {'insert': 2, 'insert_multiple': 1, 'remove': 1, 'update': 6, 'update_all': 2, 'reindex': 0.5, 'reopen': 0.5, 'handle': 1.5}}
 
 
 def direct_subclass(ck, tf):
